@@ -266,7 +266,9 @@ def check_delete_enumerates_versions(ck, R):
           "_delete_all_versions_for_key does not enumerate the versions directory on every path (it deletes what the link resolves to, at most): "
           "superseded versions of a key written twice stay behind, the function directory is never pruned and a forgotten function stays listed", fa.where())
     dv = FA(ck, FSDS + ".delete_all_versions")
-    links = [c for c in dv.calls("_delete_non_versioned_link")] + [c for c in dv.calls("_delete_all_versions_for_key")]
+    # what removes the link, by what it does: an unlink of the path the link builder returns, here or in a method of the
+    # data source that does so on every path (whatever that method is called and however the helpers are merged or split)
+    links = _link_removal_sites(ck, dv, SchemePaths(ck))
     # once the key was found to exist, every path to the exit deletes the link (directly or in the per-key helper): the only
     # edges that may by-pass the deletion are those that say "does not exist" (guard clause or nested, either polarity)
     # (a local that only ever holds an existence answer -- `present = a.exists()` ... `if not present: present = b.exists()` -- says the same)
@@ -297,8 +299,14 @@ def _dot_components(fa: FA):
             continue
         e = safe_expand(fa, r.value, r)
         for c in ast.walk(e):
-            if isinstance(c, ast.Call) and A.call_attr(c) in ("joinpath", "join"):
-                comps |= {a.value for a in c.args if isinstance(a, ast.Constant) and isinstance(a.value, str) and a.value.startswith(".")}
+            parts = []
+            if isinstance(c, ast.Call) and A.call_attr(c) in ("joinpath", "join", "Path", "PurePath"):
+                # whole components, `*(a, '.x', b)` spread out
+                for a in c.args:
+                    parts += list(a.value.elts) if isinstance(a, ast.Starred) and isinstance(a.value, (ast.Tuple, ast.List)) else [a]
+            elif isinstance(c, ast.BinOp) and isinstance(c.op, ast.Div):
+                parts = [c.left, c.right]     # pathlib: base / 'dir' / name
+            comps |= {a.value for a in parts if isinstance(a, ast.Constant) and isinstance(a.value, str) and a.value.startswith(".")}
         lits |= {s_ for s_ in A.strings_in(r.value) if s_.startswith(".")}
     return comps or lits
 
@@ -1058,7 +1066,8 @@ def check_path_scheme(ck):
 
 
 # ---- what the filesystem data source creates is what its deleter removes --------------------------------------------
-SCHEME_BUILDERS = ("_get_non_versioned_link_path", "_get_path_versioned")
+LINK_BUILDER = "_get_non_versioned_link_path"
+SCHEME_BUILDERS = (LINK_BUILDER, "_get_path_versioned")
 _TEMP_MAKERS = ("mkstemp", "mkdtemp", "NamedTemporaryFile")
 _TWO_PATH_FUNCS = {"os.replace", "os.rename", "os.renames", "os.link", "os.symlink", "shutil.move", "shutil.copy", "shutil.copy2", "shutil.copyfile"}
 _MOVE_FUNCS = {"os.replace", "os.rename", "os.renames", "shutil.move"}
@@ -1172,16 +1181,52 @@ class SchemePaths:
                 if r.value is None:
                     continue
                 body = safe_expand(fa, r.value, r)
-                self.templates.append((_canon_strings(_inline_own_builders(ck, self.cls, body)), holes))
+                self.templates.append((_canon_strings(_inline_own_builders(ck, self.cls, body)), holes, b))
         ck.need(self.templates, "%s: the link / version path builders are gone" % FSDS)
 
-    def is_scheme(self, e) -> bool:
+    def is_scheme(self, e, which=None) -> bool:
+        """is `e` (locals already expanded) a scheme path -- of the builder `which` when given"""
+        names = SCHEME_BUILDERS if which is None else (which,)
         e = _strip_path_wrappers(e)
-        if isinstance(e, ast.Call) and A.call_attr(e) in SCHEME_BUILDERS and isinstance(e.func, ast.Attribute) \
+        if isinstance(e, ast.Call) and A.call_attr(e) in names and isinstance(e.func, ast.Attribute) \
                 and isinstance(e.func.value, ast.Name) and e.func.value.id in ("self", "cls", self.cls.name):
             return True
         x = _canon_strings(_inline_own_builders(self.ck, self.cls, e))
-        return any(_unify(t, x, holes, {}) for (t, holes) in self.templates)
+        return any(_unify(t, x, holes, {}) for (t, holes, b) in self.templates if b in names)
+
+
+def _link_removal_sites(ck, fa: FA, sp, _seen=()):
+    """Calls in `fa` that remove a key's link file: `os.unlink / os.remove(P)`, `P.unlink()` with P the path the link
+    builder returns (through temporaries / wrappers), or a call of a method of the data source that removes the link on
+    every one of its own paths (see _always_removes_link)."""
+    out = []
+    cls = sp.cls
+    for k in fa.calls():
+        d, nm = A.call_dotted(k) or "", A.call_attr(k)
+        if d in ("os.unlink", "os.remove") and k.args and sp.is_scheme(safe_expand(fa, k.args[0], k), LINK_BUILDER):
+            out.append(k)
+        elif nm == "unlink" and isinstance(k.func, ast.Attribute) and not d.startswith("os.") and sp.is_scheme(safe_expand(fa, k.func.value, k), LINK_BUILDER):
+            out.append(k)
+        elif isinstance(k.func, ast.Attribute) and isinstance(k.func.value, ast.Name) and k.func.value.id in ("self", "cls", cls.name) and nm in cls.methods:
+            m = cls.methods[nm]
+            if m.qual not in _seen and m.qual != fa.qual and _always_removes_link(ck, m, sp, tuple(_seen) + (fa.qual,)):
+                out.append(k)
+    return out
+
+
+def _always_removes_link(ck, m, sp, _seen=()) -> bool:
+    """Does every normal path through method `m` remove the link, except those that found no link file
+    (`isfile` / `exists` false -- guard clause or nested, either polarity)?"""
+    memo = ck.__dict__.setdefault("_c05_link_removers", {})
+    if m.qual in memo:
+        return memo[m.qual]
+    fa = FA(ck, m)
+    sites = _link_removal_sites(ck, fa, sp, _seen)
+    nolink = branch_filter(fa, lambda t, p: (not p) and any(x in t for x in ("isfile(", "is_file()", "exists(", ".exists()")))
+    ok = bool(sites) and fa.cfg.exit not in fa.cfg.reach([fa.cfg.entry], removed=fa.nodes_all(sites), edge_ok=nolink)
+    if len(_seen) <= 1:
+        memo[m.qual] = ok
+    return ok
 
 
 def _created_paths(fa: FA):
